@@ -67,6 +67,8 @@ TARGETS = [
     ("pams/index_market.py", "IndexMarket", "compute_market_index"),
     ("pams/index_market.py", "IndexMarket", "compute_fundamental_index"),
     ("pams/agents/arbitrage_agent.py", "ArbitrageAgent", "submit_orders"),
+    ("pams/agents/arbitrage_agent.py", "ArbitrageAgent", "_submit_orders"),
+    ("pams/agents/market_maker_agent.py", "MarketMakerAgent", "get_base_price"),
     ("pams/agents/market_maker_agent.py", "MarketMakerAgent", "submit_orders"),
     ("pams/agents/fcn_agent.py", "FCNAgent", "submit_orders_by_market"),
     ("pams/simulator.py", "Simulator", "_update_agents_for_execution"),
@@ -203,6 +205,11 @@ def expr(e):
         if la.vararg or la.kwarg or la.kwonlyargs or la.defaults or len(la.args) != 1:
             raise Unsupported("lambda with other than one plain parameter")
         return "(.comp %s (.name %s) %s [])" % (expr(lam.body), lstr(la.args[0].arg), expr(e.args[1]))
+    if isinstance(e, ast.Call) and isinstance(e.func, ast.Name) and e.func.id == "len" and len(e.args) == 1 \
+            and not e.keywords and isinstance(e.args[0], ast.Call) and isinstance(e.args[0].func, ast.Name) \
+            and e.args[0].func.id == "set" and len(e.args[0].args) == 1 and not e.args[0].keywords:
+        # `len(set(xs))`: the number of distinct items (sets as values are outside the fragment)
+        return "(.call (.name \"__len_set\") [%s] [] [])" % expr(e.args[0].args[0])
     if isinstance(e, ast.Call) and isinstance(e.func, ast.Name) and e.func.id == "filter" and len(e.args) == 2 \
             and not e.keywords and isinstance(e.args[0], ast.Lambda):
         # `filter(lambda x: C, xs)` (always consumed by a `for` loop in pams, with a predicate that only looks at
